@@ -399,6 +399,179 @@ def structural_eq(facts, res, rule):
         raise BrokenCheck("%s: %d hand-written eq impls of information items (floor 12)" % (rule, st["instances"]))
 
 
+# ------------------------------------------------------------------------------------------
+# R04-7: a field that may be present is either printed or was tested absent, on every path through the printer
+
+def _presence_test(cond):
+    """-> [(field, present_in_then)] for conditions that test the presence of fields of self; [] for other conditions."""
+    out = []
+    if cond.get("k") == "Let":
+        flds = [m["name"] for m in walk(cond["init"]) if m.get("k") == "Field" and m["a"].get("name") == "self"]
+        if len(flds) == 1 and _pat_is_presence(cond["pat"]):
+            out.append((flds[0], True))
+        return out
+    neg = 0
+    n = cond
+    while n.get("k") == "Unary" and n.get("op") == "!":
+        neg += 1
+        n = n["a"]
+    if n.get("k") == "MethodCall" and n["m"] in ("is_empty", "is_none", "is_some"):
+        flds = [m["name"] for m in walk(n) if m.get("k") == "Field" and m["a"].get("name") == "self"]
+        if len(flds) == 1:
+            present = n["m"] == "is_some"
+            if neg % 2:
+                present = not present
+            out.append((flds[0], present))
+    return out
+
+
+def _printed_fields(e):
+    return {m["name"] for m in walk(e) if m.get("k") == "Field" and m["a"].get("k") == "Path" and m["a"].get("name") == "self"}
+
+
+def presence_paths(e, binds=None):
+    """[(assumptions {field: bool}, printed {field})] for every path through a printer body (conditions that are not
+    presence tests fork without an assumption)."""
+    binds = binds or {}
+    k = e.get("k") if isinstance(e, dict) else None
+    if k == "Block":
+        paths = [({}, set())]
+        items = [s.get("e") or s.get("init") for s in e.get("stmts", [])] + ([e["expr"]] if "expr" in e else [])
+        for it in items:
+            if not isinstance(it, dict):
+                continue
+            sub = presence_paths(it, binds)
+            new = []
+            for a1, p1 in paths:
+                for a2, p2 in sub:
+                    if any(a1.get(f, v) != v for f, v in a2.items()):
+                        continue      # contradictory assumptions: infeasible
+                    a = dict(a1)
+                    a.update(a2)
+                    new.append((a, p1 | p2))
+            paths = new[:4096]
+        return paths
+    if k == "Match" and e.get("src") == "Try":
+        sc = e["scrut"]
+        inner = sc["args"][0] if sc.get("k") == "Call" and sc.get("args") else sc
+        return presence_paths(inner, binds)
+    if k == "If":
+        tests = _presence_test(e["cond"])
+        cond_printed = set()
+        if e["cond"].get("k") == "Let" and tests:
+            # `if let Some(x) = self.f`: the field is printed when the then-branch uses x
+            lids = {q.get("lid") for q in walk(e["cond"]["pat"]) if q.get("p") == "Bind"}
+            if any(m.get("k") == "Path" and m.get("res") == "Local" and m.get("lid") in lids for m in walk(e["then"])):
+                cond_printed.add(tests[0][0])
+        t = presence_paths(e["then"], binds)
+        f = presence_paths(e["else"], binds) if "else" in e else [({}, set())]
+        out = []
+        for a, p in t:
+            a = dict(a)
+            ok = True
+            for fld, present in tests:
+                if a.get(fld, present) != present:
+                    ok = False
+                a[fld] = present
+            if ok:
+                out.append((a, p | cond_printed))
+        for a, p in f:
+            a = dict(a)
+            ok = True
+            for fld, present in tests:
+                if a.get(fld, not present) != (not present):
+                    ok = False
+                a[fld] = not present
+            if ok:
+                out.append((a, p))
+        return out
+    if k == "Match":
+        # match over a tuple of self fields: Some(..) / None per position
+        scr = e["scrut"]
+        elems = scr.get("es") or scr.get("elems") or scr.get("args") if scr.get("k") == "Tup" else None
+        flds = []
+        if elems:
+            for x in elems:
+                fl = [m["name"] for m in walk(x) if m.get("k") == "Field" and m["a"].get("name") == "self"]
+                flds.append(fl[0] if len(fl) == 1 else None)
+        else:
+            fl = [m["name"] for m in walk(scr) if m.get("k") == "Field" and m["a"].get("name") == "self"]
+            flds = [fl[0]] if len(fl) == 1 else []
+        out = []
+        for arm in e["arms"]:
+            a0 = {}
+            pat = arm["pat"]
+            pats = pat.get("pats") if pat.get("p") == "Tuple" else [pat]
+            if pats and len(pats) == len(flds):
+                for fld, q in zip(flds, pats):
+                    if fld is None:
+                        continue
+                    if q.get("p") == "TupleStruct" and str(q.get("path", "")).endswith("Some"):
+                        a0[fld] = True
+                    elif q.get("p") in ("Path", "Expr") and str(q.get("path") or q.get("e", {}).get("path", "")).endswith("None"):
+                        a0[fld] = False
+            used = {m.get("lid") for m in walk(arm["body"]) if m.get("k") == "Path" and m.get("res") == "Local"}
+            arm_printed = set()
+            if pats and len(pats) == len(flds):
+                for fld, q in zip(flds, pats):
+                    if fld is not None and any(b.get("p") == "Bind" and b.get("lid") in used for b in walk(q)):
+                        arm_printed.add(fld)
+            for a, p in presence_paths(arm["body"], binds):
+                if any(a0.get(f, v) != v for f, v in a.items()):
+                    continue
+                aa = dict(a0)
+                aa.update(a)
+                out.append((aa, p | arm_printed))
+        return out
+    if k in ("Call", "MethodCall") and str(e.get("mac", "")).startswith(("unreachable", "panic", "unimplemented", "todo")):
+        return []
+    if isinstance(e, dict):
+        return [({}, _printed_fields(e))]
+    return [({}, set())]
+
+
+# (item, field) is absent whenever (other field, state) holds - by the grammar, one reason each
+IMPLIED_ABSENT = {
+    ("XmlDocument", "encoding"): [("version", False, "[23] XMLDecl: VersionInfo is mandatory, a document without version has no declaration")],
+    ("XmlDocument", "standalone"): [("version", False, "[23] XMLDecl: VersionInfo is mandatory, a document without version has no declaration")],
+    ("XmlEntity", "values"): [("system_identifier", True, "[73] EntityDef ::= EntityValue | (ExternalID NDataDecl?): a literal value excludes an external id"),
+                              ("public_identifier", True, "[73] EntityDef: a literal value excludes an external id")],
+}
+
+
+def r04_7(facts, res):
+    st = res.rule("R04-7", instances=0, paths=0)
+    for ty, m, f in printers(facts):
+        tested = set()
+        for n in walk(f["body"]):
+            if n.get("k") == "If":
+                tested |= {fld for fld, _ in _presence_test(n["cond"])}
+            if n.get("k") == "Match" and n.get("src") == "Normal":
+                sc = n["scrut"]
+                if sc.get("k") == "Tup":
+                    tested |= {x["name"] for x in walk(sc) if x.get("k") == "Field" and x["a"].get("name") == "self"}
+        if not tested:
+            continue
+        paths = presence_paths(f["body"])
+        st["instances"] += 1
+        st["paths"] += len(paths)
+        bad = {}
+        for a, printed in paths:
+            for fld in tested:
+                if fld not in printed and a.get(fld) is not False:
+                    # the field may be present on this path, and the path neither prints it nor found it absent
+                    if any(a.get(o) is st_ for o, st_, _why in IMPLIED_ABSENT.get((ty, fld), [])):
+                        continue
+                    bad.setdefault(fld, a)
+        res.oblige(1, not bad)
+        for fld, a in sorted(bad.items()):
+            ctx = ", ".join("%s %s" % (k2, "present" if v else "absent") for k2, v in sorted(a.items()) if k2 != fld) or "no other test"
+            res.add(Finding("R04-7", "%s::%s|%s" % (ty, m, fld), "%s: on the path with %s the field `%s` is neither printed nor found absent: a "
+                            "value stored there is lost in the serialisation" % (f["path"], ctx, fld), f["file"], f["line"], {}))
+    if st["instances"] < 6:
+        raise BrokenCheck("R04-7: %d printers with optional fields (floor 6)" % st["instances"])
+
+
 def run(facts, tier):
     res = Result("C04")
     res.explanation = (
@@ -428,9 +601,21 @@ def run(facts, tier):
         raise BrokenCheck("R04-1: %d printer impls (floor 30)" % st["instances"])
     r04_2(facts, res)
     quote_rule(facts, res)
+    # ---- R04-0: what the printers emit is checked against the Recommendation's productions (R04-2, R04-4), so the parser has
+    # to accept every string those productions derive: the `rejects` half of the grammar comparison of C01
+    from props import c01
+    tmp = Result("C04")
+    c01.grammar_rules(facts, tmp, tier)
+    st0 = res.rule("R04-0", instances=tmp.rules["R01-1"]["instances"])
+    rej = [f for f in tmp.findings if ":rejects:" in f.key]
+    res.oblige(st0["instances"] - len(rej), True)
+    res.oblige(len(rej), False)
+    for f in rej:
+        res.add(Finding("R04-0", f.key, f.msg + " - a serialisation that uses this form is not read back", f.file, f.line, f.detail))
     r04_4(facts, res)
     r04_5(facts, res)
     structural_eq(facts, res, "R04-6")
+    r04_7(facts, res)
     # ---- R04-3
     st3 = res.rule("R04-3", instances=0)
     for ty in ITEM_TYPES:
